@@ -253,7 +253,7 @@ class Part(object):
                 )
                 for c in self.iter_all(Clef)
             ]
-        )
+        ).reshape(-1, 5)
 
         interpolators = []
         for s in range(1, self.number_of_staves + 1):
